@@ -82,9 +82,14 @@ Definition spec_Get (o : Z) (H : hist) (j : Z) : Z := Z.shiftl (Z.b2z (member o 
 Definition changes_set (p : pop) : bool :=
   match p with PSet _ | PSetUp _ _ | PSetDown _ _ => true | _ => false end.
 
+Definition head_okb (ws : list Z) : bool :=
+  match ws with w :: _ => negb (w =? all_ones_word) | [] => true end.
+
 (** one call: [prev] = exported state before it, [H'] = the set after it,
-    [ob] = (Offset, Words, result) after it *)
-Definition check_step (o : Z) (prev : Z * list Z) (H' : hist) (p : pop) (ob : Z * list Z * Z) : bool :=
+    [ob] = (Offset, Words, result) after it.  [strict] says whether the clause "the first stored
+    word is not all-ones" is required (always, for histories that start from NewTailBitmap). *)
+Definition check_step_gen (strict : bool) (o : Z) (prev : Z * list Z) (H' : hist) (p : pop)
+           (ob : Z * list Z * Z) : bool :=
   let '(off, ws, r) := ob in
   let '(poff, pws) := prev in
   let pend := poff + 64 * zlen pws in
@@ -92,7 +97,7 @@ Definition check_step (o : Z) (prev : Z * list Z) (H' : hist) (p : pop) (ob : Z 
   (off mod 64 =? 0)
   && (poff <=? off)
   && forallb (member o H') (zrange poff (Z.to_nat (off - poff)))
-  && match ws with w :: _ => negb (w =? all_ones_word) | [] => true end
+  && (negb strict || head_okb ws)
   && (pend <=? end')
   && (if negb (changes_set p) && (off =? poff) && zs_eqb ws pws then true
       else stored_ok o H' off ws)
@@ -104,6 +109,8 @@ Definition check_step (o : Z) (prev : Z * list Z) (H' : hist) (p : pop) (ob : Z 
      | PGet j => r =? spec_Get o H' j
      | PGet1 j => r =? spec_Get1 o H' j
      end.
+
+Definition check_step := check_step_gen true.
 
 (** a whole history *)
 Fixpoint check_run (o : Z) (prev : Z * list Z) (H : hist) (ps : list pop)
@@ -120,3 +127,72 @@ Fixpoint check_run (o : Z) (prev : Z * list Z) (H : hist) (ps : list pop)
 (** the history starts from NewTailBitmap(o): Offset = o, no words, nothing set *)
 Definition check_history (o : Z) (ps : list pop) (obs : list (Z * list Z * Z)) : bool :=
   check_run o (o, []) [] ps obs.
+
+(** ---- histories that start from a struct literal TailBitmap{Offset: off, Words: ws} ----
+
+    The set starts as the bits stored in the literal.  The first word of a literal may be all-ones;
+    the head clause is required after every Compact and every Set into the first stored word, and
+    from the first observation in which it holds on (it is stable). *)
+(** the maximal runs of 1-bits of a bit sequence that starts at position [base], as intervals
+    ([cur] = start of the run being read) *)
+Fixpoint runs (base : Z) (bs : list bool) (cur : option Z) : hist :=
+  match bs with
+  | [] => match cur with Some a => [(a, base)] | None => [] end
+  | true :: t => runs (base + 1) t (match cur with Some a => Some a | None => Some base end)
+  | false :: t =>
+      match cur with
+      | Some a => (a, base) :: runs (base + 1) t None
+      | None => runs (base + 1) t None
+      end
+  end.
+
+Definition hist_of_words (off : Z) (ws : list Z) : hist := runs off (flat ws) None.
+
+(** calls after which the first stored word cannot be all-ones: Compact, and a Set into the first
+    stored word (it runs Compact) *)
+Definition touches_head (poff : Z) (p : pop) : bool :=
+  match p with
+  | PCompact => true
+  | PSet idx => (poff <=? idx) && (idx <? poff + 64)
+  | _ => false
+  end.
+
+Fixpoint check_run_lit (st : bool) (o : Z) (prev : Z * list Z) (H : hist) (ps : list pop)
+         (obs : list (Z * list Z * Z)) : bool :=
+  match ps, obs with
+  | [], [] => true
+  | p :: ps', ob :: obs' =>
+      let H' := abs_step H p in
+      let st_now := st || touches_head (fst prev) p in
+      check_step_gen st_now o prev H' p ob
+      && check_run_lit (st_now || head_okb (snd (fst ob))) o (fst (fst ob), snd (fst ob)) H' ps' obs'
+  | _, _ => false
+  end.
+
+Definition check_literal (off : Z) (ws : list Z) (ps : list pop) (obs : list (Z * list Z * Z)) : bool :=
+  check_run_lit (head_okb ws) off (off, ws) (hist_of_words off ws) ps obs.
+
+(** ---- the exported Words read with the plain bitmap functions ----
+
+    After a history, for a position j >= Offset and i = j - Offset: TailBitmap.Get(j), bitmap.Get(Words, i)
+    and bitmap.SafeGet(Words, i) are all "membership of j, at bit j mod 64"; the Get1 forms are membership
+    in the lowest bit.  An entry of two values claims that j is at or past the end of Words (where Get
+    panics): then j is not a member and the Safe forms return 0. *)
+Definition hist_after (H : hist) (ps : list pop) : hist := fold_left abs_step ps H.
+
+Definition spec_words_entry (o : Z) (H : hist) (j : Z) (e : list Z) : bool :=
+  let b := Z.b2z (member o H j) in
+  let g := Z.shiftl b (j mod 64) in
+  match e with
+  | [a1; a2; a3; a4; a5; a6] =>
+      (a1 =? g) && (a2 =? g) && (a3 =? b) && (a4 =? b) && (a5 =? g) && (a6 =? b)
+  | [a5; a6] => negb (member o H j) && (a5 =? 0) && (a6 =? 0)
+  | _ => false
+  end.
+
+Fixpoint check_words (o : Z) (H : hist) (js : list Z) (es : list (list Z)) : bool :=
+  match js, es with
+  | [], [] => true
+  | j :: js', e :: es' => spec_words_entry o H j e && check_words o H js' es'
+  | _, _ => false
+  end.
